@@ -109,6 +109,16 @@ func genHostile(t *rapid.T, sc *Scenario) {
 		case 9:
 			b.Panic = rapid.IntRange(0, 2).Draw(t, "panic") == 0
 			b.IgnoreReadErr = true
+			if rapid.IntRange(0, 2).Draw(t, "hostile_grpc_message") == 0 {
+				// a malformed percent-encoding in grpc-message (header position: trailers-only answers)
+				b.Override = append(b.Override, KV{"Grpc-Message", rapid.SampledFrom([]string{"%", "%%", "a%%", "%%%%%%", "%e", "%C3", "%C3%", "100%", "%zz%zz", "%%a"}).Draw(t, "hostile_grpc_message_v")})
+				if rapid.Bool().Draw(t, "hostile_force_trailers_only") {
+					b.Kind, b.Msgs, b.MsgRaw = "trailers_only", nil, nil
+					if b.Err == nil {
+						b.Err = &ErrSpec{Code: 2, Message: "x"}
+					}
+				}
+			}
 			b.Override = append(b.Override, KV{rapid.SampledFrom([]string{"Content-Type", "Content-Length", "Grpc-Encoding", "Content-Encoding"}).Draw(t, "hostile_override"),
 				rapid.SampledFrom([]string{"text/plain", "7", "-3", "abc", "zstd", "application/grpc+bogus", "99999999999999999999"}).Draw(t, "hostile_override_v")})
 			sc.Note += "override;"
